@@ -5,6 +5,9 @@
 //!   kind=imm   : `.no_delay()`
 //!   kind=fn    : `.delay_fn(|n| ds[n-1] or d beyond the list)`   (n is 1-indexed, as in the crate)
 //!   unit=us    : `d` and `ds` are microseconds (`Duration::from_micros`); default milliseconds
+//!   `d` and every entry of `ds` may also be a duration that no `Instant` can be moved by, whatever the unit:
+//!   `max` = `Duration::MAX`, `smax` = `Duration::from_secs(u64::MAX)`, `hmax` = `Duration::from_secs(1 << 63)`
+//!   (tokio's `sleep` saturates such a deadline: the timer is never due)
 //! arrive: `warm=<ms|never>,…` — readiness of the *fresh clones* of the inner service made for this request:
 //!   the i-th fresh clone (i ≥ 1) whose readiness is polled reports `Pending` until `warm[i-1]` ms after its
 //!   first `poll_ready` (`never`: for ever, no wake-up); beyond the list (and without `warm=`) clones are ready
@@ -181,21 +184,25 @@ pub struct Adapter {
 impl Adapter {
     pub fn new(kv: &Kv) -> Adapter {
         let max = kv.u64("max", 2) as usize;
-        let d = kv.u64("d", 0);
-        let ds: Vec<u64> = kv
-            .get("ds")
-            .map(|s| s.split(',').filter_map(|x| x.parse().ok()).collect())
-            .unwrap_or_default();
         let us = kv.str("unit", "ms") == "us";
-        let dur = move |v: u64| if us { Duration::from_micros(v) } else { Duration::from_millis(v) };
+        let dur = move |x: &str| -> Option<Duration> {
+            match x {
+                "max" => Some(Duration::MAX),
+                "smax" => Some(Duration::from_secs(u64::MAX)),
+                "hmax" => Some(Duration::from_secs(1 << 63)),
+                _ => x.parse::<u64>().ok().map(|v| if us { Duration::from_micros(v) } else { Duration::from_millis(v) }),
+            }
+        };
+        let d = dur(&kv.str("d", "0")).unwrap_or(Duration::ZERO);
+        let ds: Vec<Duration> = kv
+            .get("ds")
+            .map(|s| s.split(',').filter_map(|x| dur(x)).collect())
+            .unwrap_or_default();
         let b = HedgeLayer::builder().max_hedged_attempts(max);
         let b = match kv.str("kind", "fixed").as_str() {
             "imm" => b.no_delay(),
-            "fn" => b.delay_fn(move |n| {
-                let v = if n >= 1 && n - 1 < ds.len() { ds[n - 1] } else { d };
-                dur(v)
-            }),
-            _ => b.delay(dur(d)),
+            "fn" => b.delay_fn(move |n| if n >= 1 && n - 1 < ds.len() { ds[n - 1] } else { d }),
+            _ => b.delay(d),
         };
         let layer = b.build();
         let sh = Arc::new(Shared::default());
